@@ -60,7 +60,10 @@ Inductive case :=
    ok => type, fixed ++ conditional field values, the ExtraData field of the decoded
    struct, and WriteMessage of the result *)
 | CTMsg (b : bytes) (ok : bool) (t : N) (fields : list fval) (extra : bytes) (reenc : bytes)
-        (pts : list bytes).
+        (pts : list bytes)
+(* lnwire.DecodeFailure (full) / DecodeFailureMessage on b: ok => failure code and
+   EncodeFailure / EncodeFailureMessage of the result (codes of Gen.GenWire.gen_failures) *)
+| CFail (full : bool) (b : bytes) (ok : bool) (code : N) (reenc : bytes).
 (* pts: the 33-byte windows of b that are compressed secp256k1 points, computed
    by props/c10.py independently of the Go code (evaluating secp_on_curve below
    inside Coq costs ~2 s per point); the model's ParsePubKey oracle for this
@@ -165,6 +168,18 @@ Definition check (c : case) : list N :=
        | None => [11]
        end)
     | None => if ok then [9] else []
+    end
+  | CFail full b ok code reenc =>
+    match (if full then decode_failure secp_on_curve gen_failures b
+           else read_message secp_on_curve gen_failures b) with
+    | Some (c, vs) =>
+      (if ok && (c =? code) then [] else [12]) ++
+      (match (if full then encode_failure gen_failures c vs
+              else write_message gen_failures c vs) with
+       | Some out => if bytes_eqb out reenc then [] else [13]
+       | None => [13]
+       end)
+    | None => if ok then [12] else []
     end
   end.
 
